@@ -42,10 +42,23 @@ pub mod fastq {
         fn clone(&self) -> (r: Self) ensures r == *self { Position { line: self.line, byte: self.byte } }
     }
 
-//@item fastq::Error
-//@item fastq::ErrorPosition
+//@item fastq::Error vis=keep
+//@item fastq::ErrorPosition vis=keep
+
+//@impl_open fastq::From for Error::from
+//@fn fastq::From for Error::from ret=r tags=C14
+//@spec
+        ensures
+            [C14|fastq.from_io_error] r == Error::Io(e),
+//@end
+}
+    impl vstd::std_specs::convert::FromSpecImpl<io::Error> for Error {
+        open spec fn obeys_from_spec() -> bool { true }
+        open spec fn from_spec(e: io::Error) -> Error { Error::Io(e) }
+    }
 
 //@item fastq::BufferPosition
+//@item fastq::RefRecord
     /// T7: derived Clone / Default
     impl Clone for BufferPosition {
         #[verifier::external_body]
@@ -216,6 +229,127 @@ pub mod fastq {
         }
     }
 
+
+    // ---------------------------------------------------------------------------------------------
+    // buffer -> file lifting: the buffer is the window [a, a+|b|) of the file
+    // ---------------------------------------------------------------------------------------------
+    proof fn lemma_group_lift(f: Seq<u8>, a: int, b: Seq<u8>, s: int)
+        requires 0 <= a, a + b.len() <= f.len(), b == f.subrange(a, a + b.len()), 0 <= s <= b.len(),
+                 c3(b, s) < b.len(),
+                 c4(b, s) < b.len() || a + b.len() == f.len(),
+        ensures
+            c1(f, a + s) == a + c1(b, s), c2(f, a + s) == a + c2(b, s), c3(f, a + s) == a + c3(b, s), c4(f, a + s) == a + c4(b, s),
+            s <= c1(b, s) < c2(b, s) < c3(b, s) < c4(b, s) <= b.len(),
+            group_complete(f, a + s), group_complete(b, s),
+            c1(b, s) > s ==> g_head(f, a + s) == g_head(b, s),
+            g_seq(f, a + s) == g_seq(b, s), g_qual(f, a + s) == g_qual(b, s),
+            g_id(f, a + s) == g_id(b, s),
+            same_term(f, a + s) == same_term(b, s), trimmed_eq(f, a + s) == trimmed_eq(b, s),
+            may_accept(f, a + s) == may_accept(b, s), may_reject(f, a + s) == may_reject(b, s),
+            f[a + s] == b[s], f[c2(f, a + s) + 1] == b[c2(b, s) + 1],
+            vok(f, a + s) == vok(b, s),
+            forall|e: Error, line: int| verr(e, f, a + s, line) == verr(e, b, s, line),
+    {
+        let n = b.len() as int;
+        lemma_chain_bounds(b, s);
+        lemma_nl_window(f, a, a + n, a + s);
+        lemma_nl_window(f, a, a + n, a + c1(b, s) + 1);
+        lemma_nl_window(f, a, a + n, a + c2(b, s) + 1);
+        lemma_nl_window(f, a, a + n, a + c3(b, s) + 1);
+        lemma_nl_bounds(f, a + c3(b, s) + 1);
+        if c1(b, s) > s { assert(b.subrange(s + 1, c1(b, s)) =~= f.subrange(a + s + 1, a + c1(b, s))); }
+        assert(b.subrange(c1(b, s) + 1, c2(b, s)) =~= f.subrange(a + c1(b, s) + 1, a + c2(b, s)));
+        assert(b.subrange(c3(b, s) + 1, c4(b, s)) =~= f.subrange(a + c3(b, s) + 1, a + c4(b, s)));
+        assert(f[a + s] == b[s]);
+        assert(f[a + c2(b, s) + 1] == b[c2(b, s) + 1]);
+    }
+
+    /// the group is cut short by the end of the input, which the buffer holds
+    proof fn lemma_tail_lift(f: Seq<u8>, a: int, b: Seq<u8>, s: int)
+        requires 0 <= a, a + b.len() == f.len(), b == f.subrange(a, a + b.len()), 0 <= s <= b.len(),
+                 c3(b, s) == b.len(),
+        ensures
+            !group_complete(f, a + s),
+            f.subrange(a + s, f.len() as int) == b.subrange(s, b.len() as int),
+            nterm(f, a + s) == nterm(b, s),
+            (c1(f, a + s) < f.len()) == (c1(b, s) < b.len()),
+            c1(b, s) < b.len() ==> g_id(f, a + s) == g_id(b, s),
+            forall|e: Error, line: int| eerr(e, f, a + s, line) == eerr(e, b, s, line),
+    {
+        let n = b.len() as int;
+        lemma_chain_bounds(b, s);
+        lemma_nl_window(f, a, a + n, a + s);
+        lemma_nl_bounds(f, a + s);
+        if c1(b, s) < n {
+            lemma_nl_window(f, a, a + n, a + c1(b, s) + 1);
+            lemma_nl_bounds(f, a + c1(b, s) + 1);
+            if c1(b, s) > s { assert(b.subrange(s + 1, c1(b, s)) =~= f.subrange(a + s + 1, a + c1(b, s))); }
+            if c2(b, s) < n {
+                lemma_nl_window(f, a, a + n, a + c2(b, s) + 1);
+                lemma_nl_bounds(f, a + c2(b, s) + 1);
+            }
+        }
+        assert(f.subrange(a + s, f.len() as int) =~= b.subrange(s, n));
+    }
+
+    /// appending bytes does not disturb the line starts already found
+    proof fn lemma_chain_prefix(b: Seq<u8>, b2: Seq<u8>, bp: BufferPosition, k: int)
+        requires chain(b, bp, k), 0 <= k <= 4, b.len() <= b2.len(), b2.subrange(0, b.len() as int) == b
+        ensures chain(b2, bp, k)
+    {
+        let s = bp.pos.0 as int;
+        let n = b.len() as int;
+        lemma_chain_bounds(b, s);
+        assert(b == b2.subrange(0, n));
+        lemma_nl_window(b2, 0, n, s);
+        if k >= 1 { lemma_nl_window(b2, 0, n, c1(b, s) + 1); }
+        if k >= 2 { lemma_nl_window(b2, 0, n, c2(b, s) + 1); }
+        if k >= 3 { lemma_nl_window(b2, 0, n, c3(b, s) + 1); }
+    }
+
+    /// a stuck search means the group's last terminator lies beyond the buffer window
+    proof fn lemma_stuck_beyond(f: Seq<u8>, a: int, b: Seq<u8>, bp: BufferPosition, k: int)
+        requires 0 <= a, a + b.len() <= f.len(), b == f.subrange(a, a + b.len()), stuck(b, bp, k), 0 <= k <= 3
+        ensures c4(f, a + bp.pos.0) >= a + b.len()
+    {
+        let n = b.len() as int;
+        let s = bp.pos.0 as int;
+        lemma_chain_bounds(b, s);
+        lemma_chain_bounds(f, a + s);
+        lemma_nl_window(f, a, a + n, a + s);
+        if c1(b, s) < n {
+            lemma_nl_window(f, a, a + n, a + c1(b, s) + 1);
+            if c2(b, s) < n {
+                lemma_nl_window(f, a, a + n, a + c2(b, s) + 1);
+                if c3(b, s) < n {
+                    lemma_nl_window(f, a, a + n, a + c3(b, s) + 1);
+                }
+            }
+        }
+    }
+
+    /// a terminated group spans exactly four lines
+    proof fn lemma_group_lines(f: Seq<u8>, p: int)
+        requires 0 <= p <= f.len(), c4(f, p) < f.len()
+        ensures true_line(f, c4(f, p) + 1) == true_line(f, p) + 4, p <= c4(f, p)
+    {
+        lemma_chain_bounds(f, p);
+        lemma_count_lf_line(f, p);
+        lemma_count_lf_line(f, c1(f, p) + 1);
+        lemma_count_lf_line(f, c2(f, p) + 1);
+        lemma_count_lf_line(f, c3(f, p) + 1);
+    }
+
+    /// nothing but blank lines (or nothing at all) from p on, and no complete group
+    pub open spec fn end_ok(f: Seq<u8>, p: int) -> bool {
+        p >= f.len() || (!group_complete(f, p) && all_blank(f.subrange(p, f.len() as int), 0))
+    }
+    /// the format error that the group at p must produce
+    spec fn fmt_err(e: Error, f: Seq<u8>, p: int, line: int) -> bool {
+        0 <= p < f.len() && (
+            (group_complete(f, p) && verr(e, f, p, line))
+            || (!group_complete(f, p) && !all_blank(f.subrange(p, f.len() as int), 0) && eerr(e, f, p, line)))
+    }
 
 //@impl_open fastq::BufferPosition::reset
 //@fn fastq::BufferPosition::reset tags=C05,C06
@@ -425,6 +559,171 @@ pub mod fastq {
         broadcast use lemma_split_cut;
 //@closure 0 params="b: &u8" ret="(r: bool)"
             ensures r == (*b == 32u8)
+//@end
+
+//@fn fastq::Reader::check_end ret=r tags=C02,C12,C17,C06
+//@spec
+        requires
+            old(self).buf_reader.wf(),
+            stuck(old(self).b(), old(self).buf_pos, rp(pos)),
+            old(self).position.line + 4 <= u64::MAX,
+        ensures
+            [C02,C06|fastq.check_end.frame] final(self).same_io(old(self)) && final(self).buf_pos.pos.0 == old(self).buf_pos.pos.0
+                && final(self).incomplete_pos == old(self).incomplete_pos,
+            [C02,C12|fastq.check_end.last_record] pos == RecordPos::Qual ==> match r {
+                Ok(found) => found && final(self).buf_pos.valid(final(self).b()) && final(self).buf_pos.pos.1 == final(self).b().len()
+                             && final(self).state == old(self).state,
+                Err(e) => verr(e, final(self).b(), final(self).buf_pos.pos.0 as int, final(self).position.line as int)
+                          && final(self).buf_pos.complete(final(self).b()) && final(self).state == State::Finished,
+            },
+            [C02,C12,C17|fastq.check_end.tail] pos != RecordPos::Qual ==> final(self).state == old(self).state && final(self).buf_pos == old(self).buf_pos && match r {
+                Ok(found) => !found && all_blank(final(self).b().subrange(final(self).buf_pos.pos.0 as int, final(self).b().len() as int), 0),
+                Err(e) => !all_blank(final(self).b().subrange(final(self).buf_pos.pos.0 as int, final(self).b().len() as int), 0)
+                          && eerr(e, final(self).b(), final(self).buf_pos.pos.0 as int, final(self).position.line as int),
+            },
+//@body_start
+        proof { lemma_chain_bounds(self.b(), self.buf_pos.pos.0 as int); }
+//@closure 0 params="c: &u8" ret="(r: bool)"
+            ensures r == (*c == 10u8)
+//@closure 1 params="l: &[u8]" ret="(r: bool)"
+            ensures r == blank(l@)
+//@all 0
+            invariant_except_break
+                vx_r0,
+                !split_done(&vx_it0) ==> split_rest(&vx_it0).len() <= rest@.len()
+                    && split_rest(&vx_it0) == rest@.subrange(rest@.len() - split_rest(&vx_it0).len(), rest@.len() as int)
+                    && all_blank(rest@, 0) == all_blank(rest@, rest@.len() - split_rest(&vx_it0).len()),
+                split_done(&vx_it0) ==> all_blank(rest@, 0),
+            invariant
+                decides_eq(split_pred(&vx_it0), 10u8),
+                forall|x: &[u8], y: bool| call_ensures(vx_f0, (x,), y) ==> y == blank(x@),
+                forall|x: &[u8]| call_requires(vx_f0, (x,)),
+            ensures
+                [C02,C12|fastq.check_end.blank_tail_loop] vx_r0 == all_blank(rest@, 0),
+            decreases (if split_done(&vx_it0) { 0int } else { split_rest(&vx_it0).len() as int + 1 }),
+//---pre
+            let ghost sr0 = split_rest(&vx_it0);
+//---body
+            proof {
+                let n = rest@.len() as int;
+                let pos0 = n - sr0.len();
+                let k = vx_x@.len() as int;
+                lemma_split_step_first_of(split_pred(&vx_it0), 10u8, sr0, k);
+                lemma_first_of_lf_is_nl(sr0, 0);
+                lemma_nl_window(rest@, pos0, n, pos0);
+                lemma_nl_bounds(rest@, pos0);
+                assert(vx_x@ =~= rest@.subrange(pos0, pos0 + k));
+                if k < sr0.len() { assert(split_rest(&vx_it0) =~= rest@.subrange(pos0 + k + 1, n)); }
+            }
+//@end
+
+    // ---- representation invariant (DESIGN 3.4) -------------------------------------------------
+    /// file offset of the group the stored offsets talk about
+    spec fn gpos(&self) -> int { self.base() + self.buf_pos.pos.0 }
+    spec fn coords(&self) -> bool {
+        self.position.line == true_line(self.f(), self.position.byte as int) && self.position.byte <= self.f().len()
+    }
+    spec fn wf(&self) -> bool {
+        &&& self.wf0()
+        &&& self.position.byte == self.gpos()
+        &&& match self.state {
+                State::New => self.base() == 0 && self.buf_pos.pos.0 == 0 && self.incomplete_pos is None,
+                State::Parsing => self.filled() && self.incomplete_pos is None && self.buf_pos.valid(self.b()),
+                State::Positioned => self.filled() && self.buf_pos.pos.0 <= self.b().len()
+                    && (self.incomplete_pos matches Some(k) ==> stuck(self.b(), self.buf_pos, rp(k))),
+                State::Finished => true,
+            }
+        &&& (self.state != State::Finished ==> self.coords())
+    }
+    /// a failed first fill left bytes in the buffer of a reader that is still `New`
+    spec fn poisoned(&self) -> bool { self.state == State::New && self.b().len() > 0 }
+    /// file offset and line of the next unread group
+    spec fn cursor(&self) -> int {
+        if self.state == State::Parsing { self.base() + self.buf_pos.pos.1 + 1 } else { self.gpos() }
+    }
+    spec fn cursor_line(&self) -> int {
+        if self.state == State::Parsing { self.position.line + 4 } else { self.position.line as int }
+    }
+
+//@fn fastq::Reader::init ret=r tags=C02,C14,C06 r12=fill_buf
+//@spec
+        requires
+            old(self).wf(), old(self).state == State::New,
+        ensures
+            [C06,C14|fastq.init.frame] final(self).wf() && final(self).f() == old(self).f() && final(self).buf_policy == old(self).buf_policy
+                && final(self).position == old(self).position && final(self).buf_pos == old(self).buf_pos && final(self).incomplete_pos is None
+                && final(self).base() == 0,
+            [C02,C14|fastq.init.ok] r matches Ok(more) ==> final(self).buf_reader.errs() == old(self).buf_reader.errs() && final(self).filled()
+                && (more ==> final(self).state == State::New && final(self).b().len() > 0)
+                && (!more ==> final(self).state == State::Finished && (!old(self).poisoned() ==> final(self).f().len() == 0)),
+            [C14|fastq.init.err] r matches Err(e) ==> final(self).state == State::New
+                && (e matches Error::Io(x) && final(self).buf_reader.errs() == old(self).buf_reader.errs().push(x)),
+//@end
+
+//@fn fastq::Reader::resume_incomplete_search ret=r tags=C02,C03,C06,C09,C14,C17
+//@spec
+        requires
+            old(self).wf0(), old(self).filled(),
+            stuck(old(self).b(), old(self).buf_pos, rp(incomplete_pos)),
+            old(self).position.byte == old(self).gpos(),
+            old(self).coords(),
+        ensures
+            [C03,C05,C06|fastq.resume.frame] final(self).wf0() && final(self).f() == old(self).f() && final(self).gpos() == old(self).gpos()
+                && final(self).position == old(self).position,
+            [C02,C03|fastq.resume.found] r matches Ok(true) ==> final(self).filled() && final(self).buf_pos.valid(final(self).b())
+                && group_complete(final(self).f(), final(self).gpos()) && vok(final(self).f(), final(self).gpos())
+                && final(self).base() + final(self).buf_pos.pos.1 == c4(final(self).f(), final(self).gpos())
+                && final(self).buf_reader.errs() == old(self).buf_reader.errs()
+                && (final(self).state == old(self).state || (final(self).state == State::Finished && c4(final(self).f(), final(self).gpos()) == final(self).f().len())),
+            [C02,C03|fastq.resume.end] r matches Ok(false) ==> end_ok(final(self).f(), final(self).gpos()) && final(self).state == State::Finished
+                && final(self).buf_reader.errs() == old(self).buf_reader.errs(),
+            [C02,C14,C17,C09|fastq.resume.err] r matches Err(e) ==> match e {
+                Error::Io(x) => final(self).buf_reader.errs() == old(self).buf_reader.errs().push(x),
+                Error::BufferLimit => final(self).buf_reader.errs() == old(self).buf_reader.errs(),
+                _ => final(self).buf_reader.errs() == old(self).buf_reader.errs()
+                     && fmt_err(e, final(self).f(), final(self).gpos(), final(self).position.line as int),
+            },
+            [C06,C02|fastq.resume.err_terminal] r is Err ==> final(self).state == State::Finished,
+            [C09|fastq.resume.capacity_monotone] final(self).buf_reader.cap() >= old(self).buf_reader.cap(),
+            [C09|fastq.resume.growth_only_when_record_does_not_fit] make_room && final(self).buf_reader.cap() > old(self).buf_reader.cap() ==>
+                c4(final(self).f(), final(self).gpos()) - final(self).gpos() >= old(self).buf_reader.cap(),
+//@body_start
+        proof { lemma_count_lf_mono(self.f(), 0, self.position.byte as int); }
+//@loop 0 kw=loop
+            invariant
+                [C03,C06|fastq.resume.inv.frame] self.wf0() && self.filled() && self.f() == old(self).f() && self.gpos() == old(self).gpos()
+                    && self.position == old(self).position && self.coords() && self.position.line + 4 <= u64::MAX,
+                [C02,C03|fastq.resume.inv.stuck] stuck(self.b(), self.buf_pos, rp(incomplete_pos)),
+                [C14|fastq.resume.inv.errs] self.buf_reader.errs() == old(self).buf_reader.errs(),
+                [C06|fastq.resume.inv.state] self.state == old(self).state,
+                [C09|fastq.resume.inv.capacity] self.buf_reader.cap() >= old(self).buf_reader.cap()
+                    && (make_room && self.buf_reader.cap() > old(self).buf_reader.cap() ==>
+                        c4(self.f(), self.gpos()) - self.gpos() >= old(self).buf_reader.cap()),
+            decreases
+                (if self.base() + self.b().len() <= self.f().len() { self.f().len() - self.base() - self.b().len() } else { 0 }),
+                (if self.b().len() < self.buf_reader.cap() { 0int } else { 1int }),
+//@before /return self\.check_end/
+                proof {
+                    // the buffer is not full although it was filled: it holds the end of the input
+                    let (ff, a, bb, s) = (self.f(), self.base(), self.b(), self.buf_pos.pos.0 as int);
+                    lemma_chain_bounds(bb, s);
+                    if bb.len() > 0 {
+                        if rp(incomplete_pos) == 3 { lemma_group_lift(ff, a, bb, s); } else { lemma_tail_lift(ff, a, bb, s); }
+                    }
+                }
+//@before /if let Err\(e\) = self\.grow\(\)/
+                proof {
+                    if self.b().len() > 0 { lemma_stuck_beyond(self.f(), self.base(), self.b(), self.buf_pos, rp(incomplete_pos)); }
+                }
+//@before /if let Err\(e\) = fill_buf\(&mut self\.buf_reader\)/
+            let ghost b_before = self.b();
+//@before /if let Some\(pos\) = self\.search_incomplete/
+            proof {
+                lemma_chain_prefix(b_before, self.b(), self.buf_pos, rp(incomplete_pos));
+                let (ff, a, bb, s) = (self.f(), self.base(), self.b(), self.buf_pos.pos.0 as int);
+                lemma_chain_bounds(bb, s);
+                if c4(bb, s) < bb.len() { lemma_group_lift(ff, a, bb, s); }
+            }
 //@end
 }
 
